@@ -51,7 +51,7 @@ KERNELS = [
     K("k_cache_covers", F, "KeyCache._get_key", ("if_mentions", "seed_key", 0),
       [("seed_key", B), ("seed_key_l1", Z), ("l1", Z), ("seed_key_l2", Z), ("l2", Z)], B, props=("C10", "C02")),
     K("k_cache_store", F, "KeyCache._store_key", ("if_mentions", "existing", 0),
-      [("existing", B), ("key_l1", Z), ("existing_l1", Z), ("key_l2", Z), ("existing_l2", Z)], B, props=("C10",)),
+      [("existing", B), ("key_l1", Z), ("existing_l1", Z), ("key_l2", Z), ("existing_l2", Z)], B, props=("C10", "C02")),
     K("k_cache_root_overwrites", F, "KeyCache._get_key", ("custom", _root_return_shape), [], B, props=("C10",)),
     K("k_cache_l0_guard", F, "KeyCache._get_key", ("custom", _l0_guard), [("l0", Z)], B, props=("C05",)),
     K("k_root_env_l1", F, "KeyCache._get_key", ("callarg", "GroupKeyEnvelope", 0, "l1"), [], Z, props=("C10", "C02")),
